@@ -16,6 +16,8 @@
 (*  ev = "fidx"  TransactionRequest::from_indexed with largest key k (digits)                       *)
 (*  ev = "memo"  MemoBytes::from_bytes / as_slice / as_array, Memo::from_bytes / encode,            *)
 (*               memo_to_base64 / memo_from_base64 on the bytes b                                   *)
+(*  ev = "any"   from_uri (and to_uri of what it returned) on a long or odd string: only the       *)
+(*               outcome class is logged; the property says it is never a panic                     *)
 (*  ev = "end"   n = number of records before it                                                    *)
 EXTENDS Zip321, TLC, Json, IOUtils
 
@@ -79,6 +81,7 @@ Allowed(e) == CASE e.ev = "uri" -> UriOK(e)
                 [] e.ev = "tnew" -> TnewOK(e)
                 [] e.ev = "fidx" -> FidxOK(e)
                 [] e.ev = "memo" -> MemoOK(e)
+                [] e.ev = "any" -> e.res \in {"ok", "err"}
                 [] OTHER -> FALSE
 
 PaysJ(P) == [j \in 1..Cardinality(P) |-> LET p == SortPays(P)[j] IN [p EXCEPT !.o = SetToSeq(p.o)]]
@@ -96,6 +99,7 @@ Expected(e, n) ==
       [] e.ev = "fidx" -> <<IF NumLeq(e.k, <<9, 9, 9, 9>>) THEN "ok" ELSE "err">>
       [] e.ev = "memo" -> IF Len(e.b) > 512 THEN <<"refused (longer than 512 bytes)">>
                           ELSE <<"kind", KindShown(MemoKind(e.b)), "slice", ToJson(StripZ(e.b)), "base64url", ToJson(B64Enc(StripZ(e.b)))>>
+      [] e.ev = "any" -> <<"ok or err, never a panic">>
       [] OTHER -> <<"unknown event">>
 
 IsEnd(e) == e.ev = "end" /\ e.n = l - 1
